@@ -1,1 +1,4 @@
-
+//! Independent reference implementations used as oracles.  This crate must not depend on
+//! any dicom-rs crate (see Cargo.toml).
+pub mod dict;
+pub mod ds;
